@@ -1,3 +1,4 @@
+import AsyncVerif.Impl.Aggregations
 import AsyncVerif.Proofs.Release
 /-!
 # C04 — owned async iterators are released when a tool finishes, fails or is closed
@@ -105,5 +106,31 @@ theorem C04_compress (d sel fuel : Nat) (w : World)
   rw [hw]
   apply closeSrc_preserves
   exact scopedIter_released sel _ w hb
+
+theorem C04_merge (fn : Option Nat) (reverse : Bool) (srcs : List Nat) (fuel : Nat) (w : World)
+    (h : (Impl.merge fn reverse srcs fuel w).1 ≠ .error .outOfFuel) :
+    ∀ s ∈ srcs, Released ((Impl.merge fn reverse srcs fuel w).2.srcs s) :=
+  tryFinally_closeAll_released srcs _ w h
+
+theorem C04_sum (start : Option Val) (s fuel : Nat) (w : World) (h : (Impl.sum start s fuel w).1 ≠ .error .outOfFuel) :
+    Released ((Impl.sum start s fuel w).2.srcs s) := scopedIter_released s _ w h
+
+theorem C04_min_max (fn : Option Nat) (isMax : Bool) (d : Option Val) (s fuel : Nat) (w : World)
+    (h : (Impl.minmax fn isMax d s fuel w).1 ≠ .error .outOfFuel) :
+    Released ((Impl.minmax fn isMax d s fuel w).2.srcs s) := scopedIter_released s _ w h
+
+theorem C04_reduce (f : Nat) (ini : Option Val) (s fuel : Nat) (w : World)
+    (h : (Impl.reduce f ini s fuel w).1 ≠ .error .outOfFuel) :
+    Released ((Impl.reduce f ini s fuel w).2.srcs s) := scopedIter_released s _ w h
+
+theorem C04_list (s fuel : Nat) (w : World) (h : (Impl.list s fuel w).1 ≠ .error .outOfFuel) :
+    Released ((Impl.list s fuel w).2.srcs s) := scopedIter_released s _ w h
+
+theorem C04_tuple (s fuel : Nat) (w : World) (h : (Impl.tuple s fuel w).1 ≠ .error .outOfFuel) :
+    Released ((Impl.tuple s fuel w).2.srcs s) := scopedIter_released s _ w h
+
+theorem C04_nlargest_nsmallest (largest : Bool) (n : Nat) (fn : Option Nat) (s fuel : Nat) (w : World)
+    (h : (Impl.nBest largest n fn s fuel w).1 ≠ .error .outOfFuel) :
+    Released ((Impl.nBest largest n fn s fuel w).2.srcs s) := scopedIter_released s _ w h
 
 end AsyncVerif
